@@ -650,7 +650,12 @@ class Frame:
         if isinstance(d, tuple) and d and d[0] == "discr":
             inner = d[1]
             if isinstance(inner, tuple) and inner and inner[0] in ("elem",):
-                return ("loop", inner[1], tuple(vals), a, self.body.id)
+                it = inner[1]
+                # element terms drop `.rev()` (the element is the same); the loop descriptor keeps it, so the visiting order is known
+                src = self._discr_source(t["d"])
+                if src is not None and src[0] == "loop" and isinstance(src[1], tuple) and src[1] and src[1][0] == "rev" and self.elem(src[1]) == inner:
+                    it = src[1]
+                return ("loop", it, tuple(vals), a, self.body.id)
             # Try::branch result / Option / Result matches
             src = self._discr_source(t["d"])
             if src is not None:
